@@ -122,6 +122,16 @@ fn check(acc: &mut Acc, reg: &Registry, s: &dyn Subject, case: &Case, flat: bool
                         witness(s, &case.payload, src, &pol, &rp, json!({"rule": rule, "what": detail, "at": vcore::render_path(&at)})),
                     );
                 }
+                // ... and the error the call returns is what the error type built: every report it accepted on the way
+                // (also those made before the conversion failure) is still held when the failure is answered stop
+                // (round 9; the conservation rule of C01 over the conversion subjects and the by-kind policies)
+                if let Some(loss) = conservation(&rp) {
+                    acc.violation(
+                        format!("C11/report-lost-around-a-conversion-failure/{}", ctor(&reg.defs, s.ty())),
+                        "a report accepted by the error type is not in the error returned after a conversion / validate failure",
+                        witness(s, &case.payload, src, &pol, &rp, json!({"rule": loss.rule, "what": loss.detail, "at": vcore::render_path(&loss.at)})),
+                    );
+                }
                 let mut pool = allowed.clone();
                 for c in observed_calls(&rp) {
                     match pool.iter().position(|x| *x == c) {
@@ -185,7 +195,7 @@ pub fn run(ctx: &Ctx, reg: &Registry) -> i32 {
         acc,
         Finish {
             level: "exploration",
-            rule: "every subject using from / try_from (by value and by reference) / map / validate / field-level `error =` at field and container level (catalogue + generated), keep-going script, both sources; random payloads plus every single structural mutation of valid payloads (so that every subset of stages fails somewhere). Oracle: the multiset of user-function Call events (name, argument projection, location) == the reference interpreter's (each conversion exactly once per field whose intermediate value deserialized, with exactly that value; map once per field and validate once only when all fields succeeded, validate receiving the finished value and the container's location); failures appear as exactly one foreign report at the field's / container's location (report multiset, hand-over sets); the Ok value is what the functions returned; every report is received first by the error type in scope (the field-level one under `error =`) and reports of the field-level error type cross into the container's error type exactly once; no examination or report below a container after its validate ran; stage order conversions -> maps -> validate inside flat subjects; under the by-kind answer policies a conversion failure answered stop ends its container whatever the next hand-over is answered. Non-trivial = at least one user function ran or a report was made.".into(),
+            rule: "every subject using from / try_from (by value and by reference) / map / validate / field-level `error =` at field and container level (catalogue + generated), keep-going script, both sources; random payloads plus every single structural mutation of valid payloads (so that every subset of stages fails somewhere). Oracle: the multiset of user-function Call events (name, argument projection, location) == the reference interpreter's (each conversion exactly once per field whose intermediate value deserialized, with exactly that value; map once per field and validate once only when all fields succeeded, validate receiving the finished value and the container's location); failures appear as exactly one foreign report at the field's / container's location (report multiset, hand-over sets); the Ok value is what the functions returned; every report is received first by the error type in scope (the field-level one under `error =`) and reports of the field-level error type cross into the container's error type exactly once; no examination or report below a container after its validate ran; stage order conversions -> maps -> validate inside flat subjects; under the by-kind answer policies a conversion failure answered stop ends its container whatever the next hand-over is answered, and no accepted report is lost from the returned error. Non-trivial = at least one user function ran or a report was made.".into(),
             exhaustive: false,
             assumptions: vec!["the instrumented user functions are pure and their behaviour is mirrored in refmodel::vf".into()],
         },
